@@ -247,3 +247,210 @@ JSON_CALLS = ['diff', 'patch', 'patch_plain', 'pretty_print_diff']
 JSON3_CALLS = ['decide_merge', 'decide_merge_with_diff', 'apply_decisions']
 NB_CALLS = ['diff_notebooks', 'patch_notebook', 'patch_nb_generic', 'pretty_print_notebook', 'pretty_print_notebook_diff']
 NB3_CALLS = ['decide_notebook_merge', 'merge_notebooks', 'apply_decisions_nb', 'pretty_print_merge_decisions', 'pretty_print_notebook_merge']
+
+# ---------------------------------------------------------------------------------------------- diffs / decisions from elsewhere
+# Valid diffs and decision lists that were NOT produced by nbdime's own differ / strategies: written by hand or by another
+# tool, received as JSON, edited by a front end.  nbdime itself always lists the entries of a dict-level diff in key order
+# (MappingDiffBuilder.validated, combine_patches), so every other family only ever hands key-sorted diffs to patch and to the
+# renderers; patch() accepts the entries of a dict-level diff in any order.  Two sources:
+#   * hand-built here, without nbdime (hand_dict_diff, hand_nb_diff, hand_decisions): entries in arbitrary order at every level;
+#   * nbdime's own diff / decisions re-listed by the runner (case['foreign'], c13_runner.foreign_order).
+FKEYS = ['zeta', 'alpha', 'mid', 'b', 'a', 'c', 'name', 'tags', 'Z', '_x', 'k10', 'k9', 'omega', 'beta']
+
+def gen_wide_dict(r, depth=2, nmin=2):
+    """a dict with several keys (inserted in random order), some of them dicts / lists"""
+    d = {}
+    for k in r.sample(FKEYS, r.randint(nmin, 6)):
+        c = r.random()
+        if depth > 0 and c < 0.4: d[k] = gen_wide_dict(r, depth - 1, nmin=1)
+        elif c < 0.6: d[k] = [genjson.gen_atom(r) for _ in range(r.choice([0, 1, 2, 3]))]
+        elif c < 0.7: d[k] = [gen_wide_dict(r, 0, nmin=1), r.randrange(9)]
+        else: d[k] = genjson.gen_atom(r)
+    return d
+
+def hand_list_diff(r, v):
+    """a valid list-level diff of v (ascending indices, an insertion before the op on the same index)"""
+    d = []
+    for i, x in enumerate(v):
+        c = r.random()
+        if c < 0.2: d.append({'op': 'addrange', 'key': i, 'valuelist': [r.choice([7, 'new', [1], {'n': 1}])]})
+        c = r.random()
+        if c < 0.25: d.append({'op': 'removerange', 'key': i, 'length': 1})
+        elif c < 0.6 and isinstance(x, dict) and x:
+            sub = hand_dict_diff(r, x, 0)
+            if sub: d.append({'op': 'patch', 'key': i, 'diff': sub})
+    if r.random() < 0.4: d.append({'op': 'addrange', 'key': len(v), 'valuelist': [r.choice([0, 'end', {'e': []}])] * r.choice([1, 2])})
+    return d
+
+def hand_dict_diff(r, a, depth=2, order=None):
+    """a valid diff of the dict a, built without nbdime: each key of a is kept / removed / replaced / patched, new keys are
+    added; the entries are listed in arbitrary order (order: shuffle | reverse | insertion | None = pick one)"""
+    d = []
+    for k in a:
+        c = r.random(); x = a[k]
+        if c < 0.15: continue
+        if c < 0.35: d.append({'op': 'remove', 'key': k})
+        elif c < 0.6 or not isinstance(x, (dict, list)) or (isinstance(x, dict) and not x):
+            d.append({'op': 'replace', 'key': k, 'value': r.choice([genjson.gen_atom(r), {'r': [1, {'s': 2}]}, [k, 1], 'replaced'])})
+        elif isinstance(x, dict):
+            sub = hand_dict_diff(r, x, depth - 1, order)
+            if sub: d.append({'op': 'patch', 'key': k, 'diff': sub})
+        else:
+            sub = hand_list_diff(r, x)
+            if sub: d.append({'op': 'patch', 'key': k, 'diff': sub})
+    for k in r.sample(FKEYS + ['new1', 'Added', '0'], r.choice([0, 1, 1, 2, 3])):
+        if k not in a: d.append({'op': 'add', 'key': k, 'value': r.choice([genjson.gen_atom(r), {'n': {'m': []}}, [[k]], 'added'])})
+    o = order or r.choice(['shuffle', 'shuffle', 'reverse', 'insertion'])
+    if o == 'shuffle': r.shuffle(d)
+    elif o == 'reverse': d.sort(key=lambda e: e['key'], reverse=True)
+    return d
+
+def hand_nb_diff(r, nbk):
+    """a valid notebook diff built without nbdime: notebook metadata, and metadata / execution_count / source / output
+    metadata of some cells, entries of every dict-level diff in arbitrary order"""
+    top = []
+    md = hand_dict_diff(r, nbk['metadata'], 2) if nbk['metadata'] else [{'op': 'add', 'key': k, 'value': {'v': [1]}} for k in r.sample(FKEYS, 3)]
+    if md: top.append({'op': 'patch', 'key': 'metadata', 'diff': md})
+    cd = []
+    for i, c in enumerate(nbk['cells']):
+        if r.random() < 0.25: continue
+        ed = []
+        m = hand_dict_diff(r, c['metadata'], 1) if c['metadata'] else [{'op': 'add', 'key': k, 'value': r.choice([True, ['t'], {'q': 1}])} for k in r.sample(FKEYS, r.choice([1, 2, 3]))]
+        if m: ed.append({'op': 'patch', 'key': 'metadata', 'diff': m})
+        if r.random() < 0.6: ed.append({'op': 'replace', 'key': 'source', 'value': r.choice(['x = 1\n', '', 'print(2)\nprint(3)\n'])})
+        if c['cell_type'] == 'code':
+            if r.random() < 0.6: ed.append({'op': 'replace', 'key': 'execution_count', 'value': r.choice([None, 9, 10])})
+            od = []
+            for j, o in enumerate(c['outputs']):
+                if o['output_type'] in ('display_data', 'execute_result') and r.random() < 0.6:
+                    s = [{'op': 'patch', 'key': 'metadata', 'diff': hand_dict_diff(r, o['metadata'], 1) or [{'op': 'add', 'key': 'zz', 'value': 1}]}]
+                    if o['output_type'] == 'execute_result' and r.random() < 0.5: s.append({'op': 'replace', 'key': 'execution_count', 'value': 11})
+                    free = [m_ for m_ in MIMES if m_ not in o['data'] and m_ != 'application/json']
+                    dd = [{'op': 'add', 'key': m_, 'value': 'added %s\n' % m_} for m_ in r.sample(free, min(len(free), r.choice([0, 1, 2])))]
+                    dd += [{'op': 'remove', 'key': m_} for m_ in o['data'] if r.random() < 0.3]
+                    if dd: r.shuffle(dd); s.append({'op': 'patch', 'key': 'data', 'diff': dd})
+                    r.shuffle(s); od.append({'op': 'patch', 'key': j, 'diff': s})
+                elif r.random() < 0.15: od.append({'op': 'removerange', 'key': j, 'length': 1})
+            if od: ed.append({'op': 'patch', 'key': 'outputs', 'diff': od})
+        r.shuffle(ed)
+        if ed: cd.append({'op': 'patch', 'key': i, 'diff': ed})
+    if cd: top.append({'op': 'patch', 'key': 'cells', 'diff': cd})
+    r.shuffle(top)
+    return top
+
+def _dec(path, action, conflict, ld=None, rd=None, cd=None):
+    m = {'common_path': list(path), 'action': action, 'conflict': conflict, 'local_diff': ld, 'remote_diff': rd}
+    if cd is not None: m['custom_diff'] = cd
+    return m
+
+def _one_hand_decision(r, path, obj):
+    """one decision on the dict obj at path, as a front end / another tool would write it"""
+    ld = hand_dict_diff(r, obj, 1)
+    rd = hand_dict_diff(r, obj, 1)
+    c = r.random()
+    if c < 0.3: return _dec(path, 'local', False, ld=ld)
+    if c < 0.5: return _dec(path, 'remote', False, rd=rd)
+    if c < 0.6: return _dec(path, 'either', False, ld=ld, rd=copy.deepcopy(ld))
+    if c < 0.75: return _dec(path, r.choice(['local', 'remote', 'base']), True, ld=ld, rd=rd)
+    return _dec(path, 'custom', True, ld=ld, rd=rd, cd=hand_dict_diff(r, obj, 1))
+
+def hand_decisions_json(r, base):
+    """decision list on a plain dict: one decision at the root, or decisions on the dict-valued children (deeper paths first is
+    not required: the children are disjoint)"""
+    kids = [k for k in base if isinstance(base[k], dict) and base[k]]
+    if kids and r.random() < 0.6:
+        return [_one_hand_decision(r, (k,), base[k]) for k in r.sample(kids, r.randint(1, len(kids)))]
+    return [_one_hand_decision(r, (), base)]
+
+def hand_decisions_nb(r, nbk):
+    """decision list on a notebook: cell metadata decisions (last cell first, as nbdime orders them), then notebook metadata"""
+    decs = []
+    for i in reversed(range(len(nbk['cells']))):
+        c = nbk['cells'][i]
+        if r.random() < 0.6:
+            decs.append(_one_hand_decision(r, ('cells', i, 'metadata'), c['metadata']))
+    if r.random() < 0.8 or not decs:
+        decs.append(_one_hand_decision(r, ('metadata',), nbk['metadata']))
+    return decs
+
+FOREIGN_MODES = ['shuffle', 'shuffle', 'reverse', 'reverse', 'rotate', 'swap']
+
+def gen_foreign_spec(r, custom=False):
+    s = {'mode': r.choice(FOREIGN_MODES), 'seed': r.randrange(10 ** 6), 'fresh': r.random() < 0.6}
+    if custom: s['custom'] = r.random() < 0.5
+    return s
+
+def edit_wide(r, a, depth=2):
+    """an edited copy of a wide dict with SEVERAL changes per level (so that nbdime's diff has several entries per level)"""
+    b = {}
+    for k, x in a.items():
+        c = r.random()
+        if c < 0.2: continue
+        if c < 0.45: b[k] = copy.deepcopy(x)
+        elif isinstance(x, dict) and depth > 0 and c < 0.85: b[k] = edit_wide(r, x, depth - 1)
+        elif isinstance(x, list) and c < 0.8: b[k] = copy.deepcopy(x) + [r.choice([1, 'n', {'w': 1}])]
+        else: b[k] = r.choice([genjson.gen_atom(r), 'changed', {'c': [1]}])
+    for k in r.sample(FKEYS, r.choice([0, 1, 2, 3])):
+        if k not in b: b[k] = r.choice([genjson.gen_atom(r), {'n': 1}, [k]])
+    return b
+
+def widen_nb(r, nbk):
+    """give the notebook and its cells metadata with several keys"""
+    nbk = copy.deepcopy(nbk)
+    nbk['metadata'] = dict(nbk['metadata'], **gen_wide_dict(r, 1))
+    for c in nbk['cells']:
+        if r.random() < 0.7: c['metadata'] = dict(c['metadata'], **gen_wide_dict(r, 1))
+    return nbk
+
+def edit_wide_nb(r, nbk):
+    b = edit_notebook(r, nbk)
+    b['metadata'] = edit_wide(r, b['metadata'], 1)
+    for c in b['cells']:
+        c0 = r.random()
+        if c0 < 0.6: c['metadata'] = edit_wide(r, c['metadata'], 1)
+        if c0 > 0.3 and c['cell_type'] == 'code': c['execution_count'] = r.choice([None, 6, 7])
+        if r.random() < 0.4: c['source'] = genjson.edit_text(r, c['source'])
+    return b
+
+FOREIGN_JSON_CALLS = ['patch', 'pretty_print_diff']
+FOREIGN_NB_CALLS = ['patch_notebook', 'patch_nb_generic', 'pretty_print_notebook_diff']
+FOREIGN_DEC_CALLS = ['apply_decisions_nb', 'pretty_print_merge_decisions']
+FOREIGN_NB3_CALLS = FOREIGN_DEC_CALLS + ['pretty_print_notebook_merge']
+
+def gen_foreign_cases(r, n):
+    """n: dict of counts (hand_js, hand_nb, hand_dec, re_js, re_nb, re_js3, re_nb3)"""
+    cases = []
+    for _ in range(n['hand_js']):
+        a = gen_wide_dict(r, r.choice([1, 2, 2]))
+        d = hand_dict_diff(r, a, 2)
+        for c in FOREIGN_JSON_CALLS: cases.append({'call': c, 'a': a, 'd': d, 'src': 'foreign:hand-json'})
+    for _ in range(n['hand_nb']):
+        a = widen_nb(r, gen_notebook(r, r.choice([1, 2, 3])))
+        d = hand_nb_diff(r, a)
+        for c in FOREIGN_NB_CALLS: cases.append({'call': c, 'a': a, 'd': d, 'src': 'foreign:hand-nb'})
+    for _ in range(n['hand_dec']):
+        if r.random() < 0.5:
+            base = gen_wide_dict(r, 2)
+            cases.append({'call': 'apply_decisions', 'base': base, 'decisions': hand_decisions_json(r, base), 'src': 'foreign:hand-decisions'})
+        else:
+            base = widen_nb(r, gen_notebook(r, r.choice([1, 2, 3])))
+            decs = hand_decisions_nb(r, base)
+            for c in FOREIGN_DEC_CALLS: cases.append({'call': c, 'base': base, 'decisions': decs, 'src': 'foreign:hand-decisions'})
+    for _ in range(n['re_js']):
+        a = gen_wide_dict(r, 2); b = edit_wide(r, a)
+        f = gen_foreign_spec(r)
+        for c in FOREIGN_JSON_CALLS: cases.append({'call': c, 'a': a, 'b': b, 'foreign': f, 'src': 'foreign:relisted'})
+    for _ in range(n['re_nb']):
+        a = widen_nb(r, gen_notebook(r, r.choice([1, 2, 3, 4]))); b = edit_wide_nb(r, a)
+        f = gen_foreign_spec(r)
+        for c in FOREIGN_NB_CALLS: cases.append({'call': c, 'a': a, 'b': b, 'foreign': f, 'src': 'foreign:relisted'})
+    for _ in range(n['re_js3']):
+        base = gen_wide_dict(r, 2)
+        cases.append({'call': 'apply_decisions', 'base': base, 'local': edit_wide(r, base), 'remote': edit_wide(r, base),
+                      'foreign': gen_foreign_spec(r, custom=True), 'src': 'foreign:relisted'})
+    for _ in range(n['re_nb3']):
+        base = widen_nb(r, gen_notebook(r, r.choice([1, 2, 3])))
+        l, rr = edit_wide_nb(r, base), edit_wide_nb(r, base)
+        args = r.choice(MERGE_ARGS); f = gen_foreign_spec(r, custom=True)
+        for c in FOREIGN_NB3_CALLS: cases.append({'call': c, 'base': base, 'local': l, 'remote': rr, 'args': args, 'foreign': f, 'src': 'foreign:relisted'})
+    return cases
